@@ -190,6 +190,13 @@ def check_proto(ctx, u, p, shrink=True):
     if ":" in u or "//" in u or p != letters:
         ctx.nontrivial(("P", u, p))
     bad = proto_laws(ctx, u, p)
+    if getattr(ctx, "remember", None) and not any(l.startswith("exception:") for l, _ in bad):
+        from ural.ensure_protocol import ensure_protocol as E
+        from ural.force_protocol import force_protocol as F
+        from ural.strip_protocol import strip_protocol as S
+        ctx.remember("ural.ensure_protocol:ensure_protocol", [u, p], {}, E(u, p), cap=3000)
+        ctx.remember("ural.force_protocol:force_protocol", [u, p], {}, F(u, p), cap=3000)
+        ctx.remember("ural.strip_protocol:strip_protocol", [u], {}, S(u), cap=3000)
     if not bad:
         ctx.count("proto-laws-ok")
         return
